@@ -40,6 +40,15 @@ Proof.
   destruct (run_prefix_log k (kont r) st') as [[st'' a] l]. reflexivity.
 Qed.
 
+(* with a fault-free plan the combined interpreter (used by the correspondence for crash cases) is
+   the crash interpreter *)
+Lemma run_fault_prefix_none {A} plan (p : prog A) : (forall i, plan i = FNone) -> forall n k st,
+  run_fault_prefix_log plan n k p st = run_prefix_log k p st.
+Proof.
+  intros HP. induction p as [a|c kont IH|o p IH]; cbn; intros n k st; auto.
+  destruct k; [reflexivity|]. rewrite HP. cbn. destruct (exec c st) as [st' r]. rewrite IH. reflexivity.
+Qed.
+
 (* ================================================================================== *)
 (* (a) the store invariant *)
 
